@@ -6,6 +6,7 @@ import (
 	"os"
 	"path/filepath"
 	"strings"
+	"time"
 
 	vs "github.com/mazrean/kessoku/internal/verifspec"
 )
@@ -250,4 +251,140 @@ func contract_InstallFile(targetDir string, fileName string, content []byte) (re
 	vs.Modifies(fsKind, fsContent, fsMode, fhName, fsTemps, fsFaults, fsLiveTemps)
 	vs.Allocates()
 	return
+}
+
+// ---------------------------------------------------------------------------
+// C16: path resolution, validation, registry lookup, Install
+// ---------------------------------------------------------------------------
+
+// Process environment (ghost): $HOME and the working directory as the os package reports them.
+var (
+	envHome string
+	envCwd  string
+	// ghostErrNotExist is the error os.Stat reports for a missing path (recognised by os.IsNotExist).
+	ghostErrNotExist error
+)
+
+//kvc:pure pathAbs
+func pathAbs(p string) string { a, _ := filepath.Abs(p); return a }
+
+//kvc:model path/filepath.Abs
+func model_filepath_Abs(p string) (string, error) {
+	if vs.NondetBool() {
+		return "", vs.SomeError()
+	}
+	return pathAbs(p), nil
+}
+
+//kvc:model os.UserHomeDir
+func model_os_UserHomeDir() (string, error) {
+	if vs.NondetBool() {
+		return "", vs.SomeError()
+	}
+	return envHome, nil
+}
+
+//kvc:model os.Getwd
+func model_os_Getwd() (string, error) {
+	if vs.NondetBool() {
+		return "", vs.SomeError()
+	}
+	return envCwd, nil
+}
+
+// ghostFileInfo is what the model of os.Stat returns.
+type ghostFileInfo struct{ dir bool }
+
+func (g *ghostFileInfo) Name() string       { return "" }
+func (g *ghostFileInfo) Size() int64        { return 0 }
+func (g *ghostFileInfo) Mode() os.FileMode  { return 0 }
+func (g *ghostFileInfo) ModTime() time.Time { return time.Time{} }
+func (g *ghostFileInfo) IsDir() bool        { return g.dir }
+func (g *ghostFileInfo) Sys() any           { return nil }
+
+//kvc:model os.Stat
+func model_os_Stat(name string) (os.FileInfo, error) {
+	vs.Assume(ghostErrNotExist != nil)
+	if fsKind[name] == kindAbsent {
+		return nil, ghostErrNotExist
+	}
+	if vs.NondetBool() {
+		e := vs.SomeError()
+		vs.Assume(e != ghostErrNotExist)
+		return nil, e
+	}
+	return &ghostFileInfo{dir: fsKind[name] == kindDir}, nil
+}
+
+//kvc:model os.IsNotExist
+func model_os_IsNotExist(err error) bool { return err == ghostErrNotExist }
+
+func agentUserSub(a Agent) string    { return a.UserSubPath() }
+func agentProjectSub(a Agent) string { return a.ProjectSubPath() }
+func agentDirName(a Agent) string    { return a.SkillsDirName() }
+func agentName(a Agent) string       { return a.Name() }
+
+// resolvedBase: the documented priority custom path > --user > project directory.
+func resolvedBase(customPath string, userFlag bool, agent Agent) string {
+	if customPath != "" {
+		return pathAbs(customPath)
+	}
+	if userFlag {
+		return pathJoin(envHome, agentUserSub(agent))
+	}
+	return pathJoin(envCwd, agentProjectSub(agent))
+}
+
+//kvc:contract ResolvePath
+func contract_ResolvePath(customPath string, userFlag bool, agent Agent) (result string, err error) {
+	vs.Requires(agent != nil)
+	vs.Ensures("priority", vs.Implies(err == nil, result == resolvedBase(customPath, userFlag, agent)))
+	vs.Ensures("custom_path_needs_no_environment", vs.Implies(customPath != "" && err == nil, result == pathAbs(customPath)))
+	vs.Allocates()
+	return
+}
+
+//kvc:contract resolveUserPath
+func contract_resolveUserPath(agent Agent) (result string, err error) {
+	vs.Requires(agent != nil)
+	vs.Ensures("home_joined", vs.Implies(err == nil, result == pathJoin(envHome, agentUserSub(agent))))
+	vs.Allocates()
+	return
+}
+
+//kvc:contract resolveProjectPath
+func contract_resolveProjectPath(agent Agent) (result string, err error) {
+	vs.Requires(agent != nil)
+	vs.Ensures("cwd_joined", vs.Implies(err == nil, result == pathJoin(envCwd, agentProjectSub(agent))))
+	vs.Allocates()
+	return
+}
+
+//kvc:contract ValidatePath
+func contract_ValidatePath(path string) (err error) {
+	vs.Ensures("file_refused", vs.Implies(fsKind[path] == kindFile, err != nil))
+	vs.Ensures("absent_accepted", vs.Implies(fsKind[path] == kindAbsent, err == nil))
+	vs.Ensures("accepted_is_not_a_file", vs.Implies(err == nil, fsKind[path] != kindFile))
+	vs.Allocates()
+	return
+}
+
+// registryWellFormed: no registry slot is empty (established by the initialiser of `agents`;
+// re-checked against the real package value by the static side check on every run).
+func registryWellFormed() bool {
+	return vs.Forall(len(agents), func(i int) bool { return agents[i] != nil })
+}
+
+//kvc:contract GetAgent
+func contract_GetAgent(name string) (result Agent, ok bool) {
+	vs.Requires(registryWellFormed())
+	vs.Ensures("found_has_name", vs.Implies(ok, result != nil && agentName(result) == name))
+	vs.Ensures("found_is_registered", vs.Implies(ok, vs.Exists(len(agents), func(i int) bool { return agents[i] == result })))
+	vs.Ensures("missing_means_unregistered", vs.Implies(!ok, result == nil && vs.Forall(len(agents), func(i int) bool { return agents[i] == nil || agentName(agents[i]) != name })))
+	return
+}
+
+//kvc:loop GetAgent "for _, a := range agents"
+func inv_GetAgent(name string, kvcIdx int) {
+	vs.Invariant("none_so_far", vs.Forall(kvcIdx, func(i int) bool { return agents[i] == nil || agentName(agents[i]) != name }))
 }
